@@ -124,11 +124,11 @@ func IndexedAttestationType(spec *common.Spec) *ContainerTypeDef {
 type Attestations []Attestation
 
 func (a *Attestations) Deserialize(spec *common.Spec, dr *codec.DecodingReader) error {
-	return dr.List(func() codec.Deserializable {
+	return common.ReadVariableSizeElemList(dr, func() codec.Deserializable {
 		i := len(*a)
 		*a = append(*a, Attestation{})
 		return spec.Wrap(&((*a)[i]))
-	}, 0, uint64(spec.MAX_ATTESTATIONS_ELECTRA))
+	}, uint64(spec.MAX_ATTESTATIONS_ELECTRA))
 }
 
 func (a Attestations) Serialize(spec *common.Spec, w *codec.EncodingWriter) error {
